@@ -156,13 +156,13 @@ func c01Cases(tier string) []SyncCase {
 					}
 					cases = append(cases, SyncCase{Src: wrap(s, 0), Dst: wrap(d, 1), Mem: mem})
 					if mem && s.Kind == fsmodel.File && d.Kind == fsmodel.File && d.Perm == 0644 {
-						cases = append(cases, SyncCase{Src: wrap(s, 0), Dst: wrap(d, 1), Mem: true, MemEOF: true})
+						cases = append(cases, SyncCase{Src: wrap(s, 0), Dst: wrap(d, 1), Mem: true, MemEOF: true}, SyncCase{Src: wrap(s, 0), Dst: wrap(d, 1), Mem: true, MemShort: 1000})
 					}
 				}
 			}
 			cases = append(cases, SyncCase{Src: wrap(s, 0), Dst: nil})
 			cases = append(cases, SyncCase{Src: wrap(s, 0), Dst: nil, Mem: true})
-			cases = append(cases, SyncCase{Src: wrap(s, 0), Dst: nil, Mem: true, MemEOF: true})
+			cases = append(cases, SyncCase{Src: wrap(s, 0), Dst: nil, Mem: true, MemEOF: true}, SyncCase{Src: wrap(s, 0), Dst: nil, Mem: true, MemShort: 1}, SyncCase{Src: wrap(s, 0), Dst: nil, Mem: true, MemShort: 4096})
 		}
 	}
 	// hard-link space: all set partitions of four files on both sides
